@@ -122,7 +122,7 @@ GUARDS = [
      [("wire types differ from the declared outputs", [[("[self._get_dataflow_type(c0) for c0 in L_args] == self.parent_op._outputs", False)],
                                                        [("self._wire_types(L_args) == self.parent_op._outputs", False)],
                                                        [("self.parent_op._outputs == [self._get_dataflow_type(c0) for c0 in L_args]", False)]])],
-     ["super().set_outputs(*L_args)"], "function outputs differ from the declared ones"),
+     ["self._wire_up(self.output_node, L_args)"], "function outputs differ from the declared ones"),
     ("hugr.ops._CallOrLoad.__init__", "NoConcreteFunc",
      [("missing instantiation", [[("instantiation is not None", False)]]),
       ("argument count mismatch", [[("len(signature.params) == len(ANY_)", False)], [("len(ANY_) == len(signature.params)", False)]])],
@@ -152,7 +152,7 @@ def r1_guards(ctx) -> None:
     from ..tmpl import T, tmatch
     for qual, exc, alts, effects, what in GUARDS:
         fn, mod, cls = ctx.locate(qual)
-        ps = ctx.paths(qual)
+        ps = ctx.paths(qual, supers=True)
         short = qual.split(".", 1)[1]
         rs = [p for p in ps if p.kind == "raise" and _exc_name(p) == exc]
         if not rs:
